@@ -31,7 +31,7 @@ pub fn run(a: &Args) -> i32 {
             }
         }
         if let Some(v) = rr.violation {
-            if violations.len() < 4 {
+            if violations.len() < 2 {
                 let (mh, mv) = minimise(&h, &v);
                 let rep = json!({
                     "property": "C17", "engine": "hist", "verif_seed": a.seed, "run": r, "tier": a.tier,
